@@ -17,6 +17,8 @@ def gen_ops(rng, tree, nmin=1, nmax=6, sv_rate=0.1, dry_rate=0.2, show_rate=0.25
               "date_flag": rng.random() < 0.4, "dry": rng.random() < dry_rate}
         if rng.random() < sv_rate:
             op["sv"] = rng.choice(tc.SV_KINDS)
+        if rng.random() < 0.15:
+            op["verbose"] = rng.choice(["-v", "-vv", "--verbose"])   # must not change any outcome
         ops.append(op)
         if rng.random() < show_rate:
             ops.append({"op": "show"})
@@ -200,6 +202,9 @@ class Life:
                 w.clock = clock
             if op.get("dry"):
                 argv.append("--dry")
+            if op.get("verbose"):
+                argv.insert(1, op["verbose"])
+                ctx.probe("verbose_flag")
             target = None
             if op.get("sv"):
                 target = tc.derive_target(op["sv"], tree, state, text)
